@@ -405,7 +405,7 @@ def _decode_parsed(
     decoded: dict[str, str | int | float | datetime] = {}
 
     for item in parsed:
-        if len(item.values) == 1:
+        if len(item.values) == 1 and item.address:
             obis = Obis.from_string(item.address)
 
             obis_group_cdr = obis.to_group_cdr_str()
@@ -419,7 +419,10 @@ def _decode_parsed(
             if unit in ("v", "a", "var", "varh"):
                 value = float(item.values[0].value)
             elif unit in ("kw", "kwh", "kvar", "kvarh"):
-                value = int(float(item.values[0].value) * 1000)
+                try:
+                    value = int(float(item.values[0].value) * 1000)
+                except OverflowError as ex:
+                    raise ValueError(f"Not a finite number: {item.values[0].value}") from ex
             else:
                 if obis.to_group_cdr_str() == "1.0.0":
                     value = _parse_p1_datetime(item.values[0].value)
